@@ -73,6 +73,8 @@ ORecOk(e, prev) ==
      /\ e.same = 1 => row = prev.row
 
 \* ---- whole-sequence CGR (C11, C13)
+\* integer formed by the corner bits of the 20 bases ending at position i, newest first (needs i >= 20)
+TopNum(cls, i, cf(_)) == LET v[j \in 0..20] == IF j = 0 THEN 0 ELSE 2 * v[j-1] + cf(cls[i + 1 - j]) IN v[20]
 CgrOk(e) ==
   LET cls == Classes(e.bytes)
       n == Len(cls)
@@ -84,10 +86,11 @@ CgrOk(e) ==
           /\ \A i \in 1..e.nexact : /\ e.pts[2 * i - 1] = Num(PathOf(cls, i, CornerX))
                                     /\ e.pts[2 * i]     = Num(PathOf(cls, i, CornerY))
           /\ Len(e.tops) = n - e.nexact
+          \* beyond the exact phase: the top 20 bits of point i are the corner bits of the last 20 bases (sub-square containment)
           /\ \A t \in 1..Len(e.tops) :
                LET i == e.nexact + t IN
-               /\ SubSeq(e.tops[t], 1, 20)  = SubSeq(PathOf(cls, i, CornerX), 1, 20)
-               /\ SubSeq(e.tops[t], 21, 40) = SubSeq(PathOf(cls, i, CornerY), 1, 20)
+               /\ e.tops[t][1] = TopNum(cls, i, CornerX)
+               /\ e.tops[t][2] = TopNum(cls, i, CornerY)
 
 \* ---- k-mer CGR columns (C12): end point of each canonical k-mer's text
 OColsOk(e) ==
